@@ -897,6 +897,45 @@ fn svm_poly_f32_and_logistic_f32() -> Result<Fp, String> {
     Ok(fp)
 }
 
+// ---------- boundary values of the seed itself: 0 and the largest value are explicit, legal seeds ----------
+fn seeds_at_boundary_values() -> Result<Fp, String> {
+    use linfa_clustering::{GaussianMixtureModel, GmmInitMethod, KMeans, KMeansInit};
+    use linfa_ica::fast_ica::{FastIca, GFunc};
+    use linfa_reduction::random_projection::{GaussianRandomProjection, SparseRandomProjection};
+    let mut fp = Fp::new();
+    let (x, y) = blobs(150, 3, 3, 51);
+    let ds = Dataset::from(x.clone());
+    for seed in [0usize, 1, usize::MAX] {
+        for g in [GFunc::Logcosh(1.0), GFunc::Exp, GFunc::Cube] {
+            match FastIca::params().ncomponents(2).gfunc(g).max_iter(50).random_state(seed).fit(&ds) {
+                Ok(m) => b2(&mut fp, &m.predict(&x)),
+                Err(x) => fp.extend(e(x).bytes().map(|b| b as u64)),
+            }
+        }
+    }
+    for seed in [0u64, 1, u64::MAX] {
+        let m = KMeans::params_with_rng(3, rng(seed)).init_method(KMeansInit::Random).n_runs(2).max_n_iterations(10).fit(&ds).map_err(e)?;
+        b2(&mut fp, m.centroids());
+        let m = KMeans::params_with_rng(3, rng(seed)).init_method(KMeansInit::KMeansPlusPlus).n_runs(1).max_n_iterations(10).fit(&ds).map_err(e)?;
+        b2(&mut fp, m.centroids());
+        match GaussianMixtureModel::params_with_rng(2, rng(seed)).init_method(GmmInitMethod::Random).reg_covariance(1e-3).max_n_iterations(20).fit(&ds) {
+            Ok(m) => {
+                b2(&mut fp, m.means());
+                b1(&mut fp, m.weights());
+            }
+            Err(x) => fp.extend(e(x).bytes().map(|b| b as u64)),
+        }
+        let m = GaussianRandomProjection::<f64>::params_with_rng(rng(seed)).target_dim(2).fit(&ds).map_err(e)?;
+        b2(&mut fp, &m.transform(&x));
+        let m = SparseRandomProjection::<f64>::params_with_rng(rng(seed)).target_dim(2).fit(&ds).map_err(e)?;
+        b2(&mut fp, &m.transform(&x));
+        let dsb = Dataset::new(x.clone(), y.mapv(|c| c == 1));
+        let m = linfa_ftrl::Ftrl::params_with_rng(rng(seed)).alpha(0.1).fit_with(None, &dsb).map_err(e)?;
+        b1(&mut fp, &m.get_weights());
+    }
+    Ok(fp)
+}
+
 pub fn registry() -> Vec<Entry> {
     macro_rules! ent {
         ($($f:ident),* $(,)?) => { vec![$(Entry { name: stringify!($f), run: $f }),*] };
@@ -912,7 +951,7 @@ pub fn registry() -> Vec<Entry> {
         gaussian_nb_ties, gaussian_nb_blobs, multinomial_nb_ties, ftrl_default_seed,
         pca, random_projections, diffusion_map, fast_ica_seeded,
         diffusion_map_slowly_converging, pca_hard, iterative_fits_stopped_early,
-        pls_svd, kmeans_l1_big_f32, kernels_sparse_all_indices, svm_poly_f32_and_logistic_f32,
+        seeds_at_boundary_values, pls_svd, kmeans_l1_big_f32, kernels_sparse_all_indices, svm_poly_f32_and_logistic_f32,
         scalers, whiteners, vectorizers, platt, one_vs_all_and_confusion, multiclass_svm_one_vs_all,
     ]
 }
